@@ -31,6 +31,7 @@ type EncSpec struct {
 	Flush  []int     `json:"flush"` // data offsets at which Flush is called
 	Dict   *DataSpec `json:"dict"`
 	Hdr    *GzHeader `json:"hdr"`
+	FHCRC  bool      `json:"fhcrc"` // gzip: add the optional header CRC16 (no Go writer emits it; readers must check it)
 }
 
 // Mutation changes the byte string.
@@ -87,7 +88,17 @@ func encode(e EncSpec) ([]byte, error) {
 	if err := u.w.Close(); err != nil {
 		return nil, err
 	}
-	return buf.Bytes(), nil
+	out := buf.Bytes()
+	if e.FHCRC && e.Kind == "gzip" {
+		if n, complete, valid, _, _ := parseGzipHeader(out); complete && valid && out[3]&2 == 0 {
+			hdr := append([]byte{}, out[:n]...)
+			hdr[3] |= 2
+			crc := crc32.ChecksumIEEE(hdr)
+			hdr = append(hdr, byte(crc), byte(crc>>8))
+			out = append(hdr, out[n:]...)
+		}
+	}
+	return out, nil
 }
 
 // Build materialises the stream.
